@@ -135,14 +135,17 @@ theorem rqMove_th (s : BSt) (i : Nat) (st : Stmt) (rest : List Stmt) (hlt : i < 
   have e2 : (rqDecode (rqPrep s i) st).cfg = s.cfg := by unfold rqDecode; split <;> rfl
   have hl : i < (rqDecode (rqPrep s i) st).ths.length := by
     rw [rqDecode_ths]; unfold rqPrep; rw [length_setTh]; exact hlt
-  unfold PB.rqMove
+  rw [rqMove_th_eq]
+  unfold PB.rqMove0
   rw [th_setTh_same _ _ hl, e1, e2, rqPrep_th s i hlt]
 
 theorem rqMove_cfg (s : BSt) (i : Nat) (st : Stmt) (rest : List Stmt) : (rqMove s i st rest).cfg = s.cfg := by
-  unfold PB.rqMove rqDecode; split <;> rfl
+  rw [(rqMove_proj s i st rest).2.1]
+  unfold PB.rqMove0 rqDecode; split <;> rfl
 
 theorem rqMove_len (s : BSt) (i : Nat) (st : Stmt) (rest : List Stmt) : (rqMove s i st rest).ths.length = s.ths.length := by
-  unfold PB.rqMove; rw [length_setTh, rqDecode_ths]; unfold rqPrep; rw [length_setTh]
+  rw [(rqMove_proj s i st rest).1]
+  unfold PB.rqMove0; rw [length_setTh, rqDecode_ths]; unfold rqPrep; rw [length_setTh]
 
 /-- the coupling after one record was moved to the buffer -/
 theorem qc_move (c : Cfg) (t : Th) (st : Stmt) (rest : List Stmt) (hqc : QC t) (hq : t.qStmts = st :: rest)
@@ -270,7 +273,8 @@ theorem readQueue_other (hq : Quiet inj) (tsNow : Option Nat) (i j : Nat) (hj : 
     · rw [hcom, hprep]
     · exact hprep s
   have hmove : ∀ (s : BSt) st rest, (rqMove s i st rest).th j = s.th j := fun s st rest => by
-    unfold PB.rqMove
+    rw [rqMove_th_eq]
+    unfold PB.rqMove0
     rw [th_setTh_ne _ _ hj]
     have : (rqDecode (rqPrep s i) st).th j = (rqPrep s i).th j := by simp only [BSt.th, rqDecode_ths]
     rw [this, hprep]
@@ -551,7 +555,8 @@ theorem quiet_actors (hq : Quiet inj) (s : BSt) (k : Nat) : (inj s k).actors = s
   obtain ⟨x, hx⟩ := hq s k; rw [hx]
 
 theorem rqMove_actors (s : BSt) (i : Nat) (st : Stmt) (rest : List Stmt) : (rqMove s i st rest).actors = s.actors := by
-  unfold PB.rqMove rqDecode; split <;> rfl
+  rw [(rqMove_proj s i st rest).2.2]
+  unfold PB.rqMove0 rqDecode; split <;> rfl
 
 theorem readQueue_actors (hq : Quiet inj) (tsNow : Option Nat) (i : Nat) (fuel : Nat) :
     ∀ (total : Nat) (s : BSt), (Backend.readQueue inj tsNow i fuel total s).actors = s.actors := by
